@@ -52,14 +52,34 @@ fn next_boundary(rot: &str, t: i64) -> i64 {
     }
 }
 
+/// Entries that are in the log directory before the appender exists and are not the appender's: files whose
+/// names do not match its prefix/suffix (or, with neither, are not dates) and a directory whose name does match.
+/// They must survive every rotation and never count against the file limit.
+fn decoys(cfg: &Value) -> (Vec<String>, Vec<String>) {
+    if !cfg["decoys"].as_bool().unwrap_or(false) {
+        return (vec![], vec![]);
+    }
+    match (cfg["prefix"].as_str(), cfg["suffix"].as_str()) {
+        (Some(p), Some(s)) => (vec![format!("zz-other.{s}"), format!("{p}.dat")], vec![format!("{p}.archive.{s}")]),
+        (Some(p), None) => (vec!["zz-other.txt".to_string()], vec![format!("{p}.archive")]),
+        (None, Some(s)) => (vec!["zz-other.dat".to_string()], vec![format!("archive.{s}")]),
+        (None, None) => (vec!["README".to_string()], vec!["archive".to_string()]),
+    }
+}
+static DECOY_FILES: Mutex<Vec<String>> = Mutex::new(Vec::new());
+
 fn read_dir(dir: &std::path::Path) -> BTreeMap<String, Vec<u8>> {
     let mut m = BTreeMap::new();
+    let skip = DECOY_FILES.lock().unwrap().clone();
     if let Ok(rd) = std::fs::read_dir(dir) {
         for e in rd.flatten() {
             if !e.file_type().map_or(false, |t| t.is_file()) {
                 continue;
             }
             if let Ok(name) = e.file_name().into_string() {
+                if skip.contains(&name) {
+                    continue;
+                }
                 m.insert(name, std::fs::read(e.path()).unwrap_or_default());
             }
         }
@@ -91,7 +111,7 @@ impl Engine for RollingEngine {
         &["C16"]
     }
     fn rule(&self, _p: &str) -> String {
-        "configuration = rotation kind x prefix/suffix combination x file limit (none, 1..3) x interface (exclusive io::Write on one thread, or shared MakeWriter used by 2-4 threads under seeded schedules with preemption at the next_date load/CAS, hook H4, and at the file lock); history = phases of a simulated clock step (to an exact boundary, one second before it, several periods ahead, across month/year ends and leap days, standing still, stepping back) followed by writes of unique buffers; non-trivial = at least one rotation and (shared interface) at least two threads wrote in a phase that crossed a boundary, or (exclusive) a step back / stand-still occurred after a rotation; distinct = distinct (plan, schedule digest)".into()
+        "configuration = rotation kind x prefix/suffix combination x file limit (none, 1..3) x interface (exclusive io::Write on one thread, or shared MakeWriter used by 2-4 threads under seeded schedules with preemption at every access of next_date, hooks H4/H7, and at the file lock) x (a third of the runs) foreign entries already in the directory - files that do not match prefix/suffix and a directory that does - which must survive untouched and never count against the limit; history = phases of a simulated clock step (to an exact boundary, one second before it, several periods ahead, across month/year ends and leap days, standing still, stepping back) followed by writes of unique buffers; non-trivial = at least one rotation and (shared interface) at least two threads wrote in a phase that crossed a boundary, or (exclusive) a step back / stand-still occurred after a rotation; distinct = distinct (plan, schedule digest)".into()
     }
     fn components(&self) -> Value {
         json!({"real": ["tracing_appender::rolling::{RollingFileAppender, RollingWriter, Inner}", "std::fs on a private temp directory", "time crate (date arithmetic and formatting)"], "stub": ["clock (hook H4 reads the simulated wall clock)", "parking_lot RwLock around the file (cooperative)"]})
@@ -126,7 +146,7 @@ impl Engine for RollingEngine {
             steps.push(json!({"clock": clock, "writes": per}));
         }
         let sched = if shared { Sched::swarm(&mut rng, 200) } else { Sched::op_order(rng.next_u64()) };
-        json!({"engine": "rolling", "prop": g.prop, "mode": g.mode, "cfg": {"rot": rot, "prefix": prefix, "suffix": suffix, "limit": limit, "shared": shared, "threads": nthreads, "start": start}, "steps": steps, "sched": serde_json::to_value(&sched).unwrap(), "hang_is_violation": true})
+        json!({"engine": "rolling", "prop": g.prop, "mode": g.mode, "cfg": {"rot": rot, "prefix": prefix, "suffix": suffix, "limit": limit, "shared": shared, "threads": nthreads, "start": start, "decoys": rng.chance(1, 3)}, "steps": steps, "sched": serde_json::to_value(&sched).unwrap(), "hang_is_violation": true})
     }
 
     fn execute(&self, plan: &Value) -> RunResult {
@@ -164,6 +184,19 @@ impl Engine for RollingEngine {
             }
             if let Some(n) = limit {
                 b = b.max_log_files(n as usize);
+            }
+            let (dfiles, ddirs) = decoys(&cfg2);
+            for f in &dfiles {
+                let _ = std::fs::write(dir2.join(f), b"not a log file\n");
+            }
+            for d in &ddirs {
+                let _ = std::fs::create_dir_all(dir2.join(d));
+            }
+            *DECOY_FILES.lock().unwrap() = dfiles.clone();
+            if !dfiles.is_empty() {
+                fault("foreign_entries_in_log_dir");
+                // their creation time precedes every log file's
+                std::thread::sleep(std::time::Duration::from_millis(12));
             }
             let appender = match b.build(&dir2) {
                 Ok(a) => a,
@@ -290,6 +323,16 @@ impl Engine for RollingEngine {
             }
             drop(shared_app);
             *ff2.lock().unwrap() = read_dir(&dir2);
+            for f in &dfiles {
+                if std::fs::read(dir2.join(f)).ok().as_deref() != Some(&b"not a log file\n"[..]) {
+                    violation("foreign-file-touched", format!("{f:?} was in the log directory before the appender was built and does not match its prefix/suffix, but it was removed or changed"));
+                }
+            }
+            for d in &ddirs {
+                if !dir2.join(d).is_dir() {
+                    violation("foreign-file-touched", format!("the directory {d:?} inside the log directory was removed"));
+                }
+            }
         };
         let cfg3 = cfg.clone();
         let dir3 = dir.clone();
